@@ -79,14 +79,14 @@ def comparison(ctx):
                     if any(isinstance(s, tuple) and s and s[0] == "field" and s[3] == "payload_max_size" for s in subterms(a)):
                         a, b = b, a
                     ok_a = a[0] == "cast" and a[2] == "usize" and is_call(look(a[1]), "common::headers::Headers::content_length") and conn.pending_req(a)
-                    ok_b = self_field(b, "payload_max_size")
+                    ok_b = self_field(conn.lim_field(b), "payload_max_size")
                     ctx.ob("R04.1", "operands", ok_a and ok_b, "compares `pending.headers.content_length() as usize` (%s) with `self.payload_max_size` (%s)" % (ok_a, ok_b), fn.loc(_b))
         if big is True:
             ctx.ob("R04.1", "exceeds->error", err is not None, "length > limit returns ParseError(SizeLimitExceeded)", fn.loc(lf.bb))
             if err is not None:
                 n_err += 1
                 lim, size = look(err[3][0]), look(err[3][1])
-                ok = self_field(lim, "payload_max_size") and size[0] == "cast" and is_call(look(size[1]), "common::headers::Headers::content_length")
+                ok = self_field(conn.lim_field(lim), "payload_max_size") and size[0] == "cast" and is_call(look(size[1]), "common::headers::Headers::content_length")
                 ctx.ob("R04.1", "error-fields", ok, "SizeLimitExceeded(limit = self.payload_max_size, size = declared length): (%s, %s)" % (term_s(lim)[:50], term_s(size)[:70]), fn.loc(lf.bb))
             # R04.2: nothing buffered before
             st = [e for e in lf.events if e[0] == "assign" and e[3] in ("(*_1).state", "(*_1).body_bytes_to_be_read", "(*_1).body_vec")]
@@ -229,6 +229,10 @@ def handover(ctx):
                 from .util import struct_field_value
                 a0 = struct_field_value(facts, hcs[0], "payload_max_size")
                 a = look(a0) if a0 is not None else ("unknown", "payload_max_size not readable from the literal")
+                if a[0] == "agg" and a[2] == "Some" and "Option" in a[1] and len(a[3]) == 1:
+                    a = look(a[3][0])       # the limit kept as an Option: Some(the server's value)
+                    if a[0] == "deref":
+                        a = look(a[1])
                 if a[0] == "field" and look(a[1]) == ("arg", 1) and a[3].isdigit() and f.d["kind"] == "closure":
                     caps = closure_captures(ctx, f.name)
                     a = look(caps[int(a[3])]) if caps and int(a[3]) < len(caps) else a
@@ -239,7 +243,10 @@ def handover(ctx):
         fn, lv = leaves(ctx, name)
         for lf in lv:
             a = [e for e in lf.events if e[0] == "assign" and e[3] == "(*_1).payload_max_size"]
-            ctx.ob("R04.4", "setter|%s" % name, len(a) == 1 and a[0][4] == ("arg", 2), "%s stores its argument" % name, fn.loc(0))
+            v = look(a[0][4]) if len(a) == 1 else None
+            if v is not None and v[0] == "agg" and v[2] == "Some" and "Option" in v[1] and len(v[3]) == 1:
+                v = look(v[3][0])
+            ctx.ob("R04.4", "setter|%s" % name, len(a) == 1 and v == ("arg", 2), "%s stores its argument (as it is, or as Some(argument) when the field is an Option)" % name, fn.loc(0))
     callers = sorted({f.name for f in facts.fns.values() if list(f.calls_to(conn.P + "set_payload_max_size"))})
     ctx.ob("R04.4", "connection-limit-set-only-at-accept", all(r.startswith("server::HttpServer::handle_new_connection") for c in callers for r in writer_roots(facts, c)), "HttpConnection::set_payload_max_size is called only while accepting a connection (callers: %s): an open connection keeps the limit it was given" % callers)
     allowed = {conn.HC: {conn.P + "new", conn.P + "set_payload_max_size"}, SRV: {"server::HttpServer::new", "server::HttpServer::new_from_fd", "server::HttpServer::set_payload_max_size"}}
